@@ -10,6 +10,7 @@ CONSTANTS
   MaxMut = 10
   MaxSnap = 7
   MaxDepth = 4
+  MaxTx = 0
   FrameAddr <- FrEL
   NewAddrs <- NewEL
   XferTo <- XferEL
